@@ -74,6 +74,12 @@ static void one_case(Rng& r, const std::string& tier, int minorder) {
   for (auto& e : extra) e = r.range(0, p.nd == 1 ? 8 : 3);
   auto count = [&]() { long n = 1; for (int i = 0; i < p.nd; i++) n *= p.ord[i] + 1 + extra[i]; return n; };
   while (count() > maxN) { int i = r.range(0, p.nd - 1); if (extra[i] > 0) extra[i]--; else if ((int)p.ord[i] > minorder) p.ord[i]--; else { bool any = false; for (int j = 0; j < p.nd; j++) if (extra[j] > 0 || (int)p.ord[j] > minorder) any = true; if (!any) break; } }
+  // sibling axes: dimension 1 has the order, the knot count and the number of abscissae of dimension 0 and the same first two
+  // knots and abscissae, but differs from there on (a stretched copy) — whatever is derived per axis must be derived from
+  // the whole axis
+  bool sibling = p.nd >= 2 && r.coin(1, 3) && p.ord[1] == p.ord[0] && extra[1] == extra[0];
+  if (!sibling && p.nd >= 2 && r.coin(1, 3)) { uint32_t o = std::min(p.ord[0], p.ord[1]); int e = std::min(extra[0], extra[1]); p.ord[0] = p.ord[1] = o; extra[0] = extra[1] = e; sibling = true; }
+  if (sibling) stats["sibling_axes_problems"]++;
   stats["knotstyle_" + std::to_string(kstyle)]++;
   stats["ndim_" + std::to_string(p.nd)]++;
   int cls = r.range(0, 9);   // 0-4 random data, 5-6 spline data with lambda 0, 7-9 polynomial data below the penalty order
@@ -97,6 +103,21 @@ static void one_case(Rng& r, const std::string& tier, int minorder) {
       if (kstyle == 1) xs[j] = std::floor(xs[j] * 64) / 64.0;   // dyadic: keeps the exact arithmetic small
       if (xs[j] < lo) xs[j] = lo;
       if (xs[j] >= hi) xs[j] = lo + (hi - lo) * 0.999;
+    }
+    if (sibling && d == 1 && p.coords[0].size() >= 3) {
+      // the stretched copy of axis 0 (generated above only to keep the stream of random numbers in step)
+      const std::vector<double>& k0 = p.kn[0]; std::vector<double>& k1 = p.kn[1];
+      double f = kstyle == 1 ? 1.5 : 1.25 + r.unit();
+      for (size_t i = 0; i < k1.size(); i++) k1[i] = i < 2 ? k0[i] : k0[1] + (k0[i] - k0[1]) * f;
+      std::vector<double> s0 = p.coords[0]; bool sorted0 = std::is_sorted(s0.begin(), s0.end());
+      xs = s0;
+      for (size_t j = 2; j < xs.size(); j++) xs[j] = s0[1] + (s0[j] - s0[1]) * f;
+      double lo1 = k1[p.ord[1]], hi1 = k1[k1.size() - p.ord[1] - 1];
+      for (auto& x : xs) { if (x < lo1) x = lo1; if (x >= hi1) x = lo1 + (hi1 - lo1) * 0.999; }
+      if (kstyle == 1) for (size_t j = 2; j < xs.size(); j++) xs[j] = std::floor(xs[j] * 64) / 64.0;
+      (void)sorted0;
+      p.coords.push_back(xs);
+      continue;
     }
     if (r.coin(1, 3)) { for (int j = npts - 1; j > 0; j--) std::swap(xs[j], xs[r.below(j + 1)]); stats["unsorted_abscissae_dims"]++; }
     p.coords.push_back(xs);
